@@ -166,7 +166,8 @@ def gen_simple_case(rng, nmax=5, template=None):
     return {"sim": "Gillespie_simple_contagion", "graph": spec, "statuses": [enc_status(s) for s in sts],
             "spont": spont, "induced": induced, "IC": IC, "ret": [enc_status(s) for s in ret],
             "tmin": rng.choice([0, 0, 5, -2.5]), "tmax": rng.choice([None, float("inf"), 1e9]),
-            "ic_type": rng.choice(["dict", "defaultdict"]), "template": gen_spec_model.last}
+            "ic_type": rng.choice(["dict", "defaultdict"]), "template": gen_spec_model.last,
+            "ic_extra": rng.random() < 0.3}
 
 
 class SimpleAdapter(object):
@@ -263,6 +264,11 @@ class SimpleAdapter(object):
 
     def _ic(self):
         d = {lab: s for lab, s in zip(self.labels, self.init_state)}
+        if self.case.get("ic_extra"):
+            # an initial-condition dict written for a larger population: keys that are not nodes of G
+            d[("not", "a", "node")] = self.init_state[0]
+            d["__outside__"] = self.init_state[-1]
+            d[-12345] = self.init_state[0]
         if self.case.get("ic_type") == "defaultdict":
             dd = defaultdict(lambda: self.init_state[0])
             dd.update(d)
@@ -559,6 +565,7 @@ def gen_complex_case(rng, model=None):
     rng.shuffle(ret)
     return {"sim": "Gillespie_complex_contagion", "graph": spec, "model": model, "params": params,
             "infl_kind": rng.choice(["list", "iterator", "generator", "tuple", "set", "dictkeys"]),
+            "ic_extra": rng.random() < 0.3,
             "IC": IC, "ret": ret, "tmin": rng.choice([0, 0, 5, -2.5]),
             "tmax": rng.choice([None, float("inf"), float("inf"), 1e9])}
 
@@ -601,6 +608,9 @@ class ComplexAdapter(object):
         if c.get("tmax") is not None:
             kw["tmax"] = c["tmax"]
         IC = {lab: s for lab, s in zip(self.labels, self.init_state)}
+        if c.get("ic_extra"):
+            IC[("not", "a", "node")] = self.init_state[0]
+            IC["__outside__"] = self.init_state[-1]
         rate, choose, infl = self.rate, self.choose, self.infl
         if spy is not None:
             def rate(G, node, status, parameters, _f=self.rate):  # noqa: F811
